@@ -570,6 +570,20 @@ type Reach struct {
 // Reachable computes the set of references an expansion starting at start has to follow
 // (everything reachable through references; only element references when schemas are skipped).
 func (w *World) Reachable(start Node, skipSchemas bool) *Reach {
+	return w.reachable(start, skipSchemas, false)
+}
+
+// ReachableLoose is Reachable with references to the containing document as a whole ("#", "")
+// followed like any other reference. The library keeps such a reference where it meets it, but
+// rewrites it to the absolute URL of the document; when a later part of the same walk reads the
+// rewritten copy back from the in-memory root, it IS followed. What lies behind such a reference
+// is therefore something an expansion MAY follow: the oracles demand what Reachable yields and
+// tolerate what ReachableLoose yields.
+func (w *World) ReachableLoose(start Node, skipSchemas bool) *Reach {
+	return w.reachable(start, skipSchemas, true)
+}
+
+func (w *World) reachable(start Node, skipSchemas bool, followSelf bool) *Reach {
 	r := &Reach{Docs: map[string]bool{}, Requested: map[string]bool{}, Targets: map[string]Node{}}
 	var rec func(n Node)
 	rec = func(n Node) {
@@ -579,9 +593,11 @@ func (w *World) Reachable(start Node, skipSchemas bool) *Reach {
 			}
 			if h.Ref == "#" || h.Ref == "" {
 				// the containing document as a whole: such a reference is a cycle by construction
-				// (the document contains the holder) and is kept as it stands, never followed
+				// (the document contains the holder) and is kept where it is met
 				r.Cyclic = true
-				continue
+				if !followSelf {
+					continue
+				}
 			}
 			r.Holders = append(r.Holders, h)
 			if u, _, err := Locate(h.Node.URL, h.Ref); err == nil {
